@@ -37,19 +37,21 @@ void h_dt_parseInt(void)
     /* ---------------- parseInt(start, end) ---------------- */
     int r = XMLDateTime_parseInt(start, end);
     VERIF_CANARY("after call");
-    /* reference: decimal value as a mathematical integer (<= 13 digits fit 64 bits) */
+    /* reference: decimal value as a mathematical integer, saturating: `big` = the value exceeds INT_MAX (prefix values
+       of a numeral never decrease, so once a prefix exceeds INT_MAX the numeral does) */
     unsigned long long v = 0;
-    int alldigits = 1;
+    int alldigits = 1, big = 0;
     for (XMLSize_t i = start; i < end; i++) {
       XMLCh c = fBuffer[i];
       if (c < 0x30 || c > 0x39) { alldigits = 0; break; }
       v = v * 10 + (unsigned)(c - 0x30);
+      if (v > 2147483647ull) { big = 1; v = 0; }
     }
     if (!alldigits) {
       __CPROVER_assert(verif_thrown && verif_throw_type == VT_NumberFormatException, "C09: parseInt: a non-digit is rejected (NumberFormatException)");
     } else {
       if (end - start <= 9) __CPROVER_assert(!verif_thrown, "C09: parseInt: up to 9 digits always accepted");
-      __CPROVER_assert(verif_thrown || (r >= 0 && (unsigned long long)r == v), "C09: parseInt: result is the decimal value of the digit string, no wrap-around");
+      __CPROVER_assert(verif_thrown || (!big && r >= 0 && (unsigned long long)r == v), "C09: parseInt: result is the decimal value of the digit string, no wrap-around");
     }
   } else {
     /* ---------------- parseIntYear(end) ---------------- */
@@ -58,11 +60,12 @@ void h_dt_parseInt(void)
     XMLSize_t s = (n > 0 && fBuffer[0] == 0x2D) ? 1 : 0;
     VERIF_ASSUME(s <= end);
     unsigned long long v = 0;
-    int alldigits = 1;
+    int alldigits = 1, big = 0;
     for (XMLSize_t i = s; i < end; i++) {
       XMLCh c = fBuffer[i];
       if (c < 0x30 || c > 0x39) { alldigits = 0; break; }
       v = v * 10 + (unsigned)(c - 0x30);
+      if (v > 2147483647ull) { big = 1; v = 0; }
     }
     /* lexical space of the year part: '-'? digit{4,}, no leading zero when more than four digits (3.2.7.1) */
     int lexical_ok = alldigits && (end - s >= 4) && !(end - s > 4 && fBuffer[s] == 0x30);
@@ -70,7 +73,7 @@ void h_dt_parseInt(void)
       __CPROVER_assert(verif_thrown, "C09: parseIntYear: year outside the lexical space (short, leading zero, non-digit) is rejected");
     else {
       if (end - s <= 9) __CPROVER_assert(!verif_thrown, "C09: parseIntYear: 4..9 digit year accepted");
-      __CPROVER_assert(verif_thrown || (s ? ((long long)r == -(long long)v) : ((long long)r == (long long)v)),
+      __CPROVER_assert(verif_thrown || (!big && (s ? ((long long)r == -(long long)v) : ((long long)r == (long long)v))),
                        "C09: parseIntYear: result is the (signed) decimal value of the year, no wrap-around");
     }
   }
